@@ -5,8 +5,8 @@
 package main
 
 import (
-	"math"
 	"fmt"
+	"math"
 	"os"
 	"regexp"
 	"strings"
@@ -183,6 +183,7 @@ func names(all []op, h []int) []string {
 
 func main() {
 	r := lib.NewReport("C06")
+	defer r.Guard()
 	all := ops()
 	maxItems, maxDepth := 3, 14
 	if r.Tier == "thorough" {
